@@ -280,6 +280,52 @@ def verify_structure(chk):
     chk.absorb(ex)
 
 
+def key_map(chk):
+    o = chk.ob('key-map-construction', 'StandardCupv2Handler::new registers every configured key under its own id: the id -> key map holds exactly (latest.id, latest.key) followed by (h.id, h.key) for each historical key, and the id used for decoration is latest.id - for 0, 1 and 2 historical keys with arbitrary ids and keys')
+    D = None
+    for nh in (0, 1, 2):
+        ex = c15.real_builder_executor(chk, dict(unroll=8, shape=lambda o_, t, n=nh: n))
+        if D is None:
+            D = Decide(chk, ex, o, cross=False)
+        D.ex = ex
+        fn = find_method(ex, 'StandardCupv2Handler::new')
+        st0 = State()
+        PK = 'cup_ecdsa::PublicKeys'
+        KI = 'cup_ecdsa::PublicKeyAndId'
+        pk = Tree({}, 'pk', PK)
+        st0.cells['pk'] = pk
+        res = ex.run_fn(fn, [Ptr('pk')], st0)
+        D.no_bad_status(res)
+        for st in res:
+            if st.status != 'done':
+                continue
+            h = st.result
+            H = 'cup_ecdsa::StandardCupv2Handler'
+            mp = ex.child(st, h, fidx(ex, H, 'parameters_by_id'), None)
+            lid = ex.child(st, h, fidx(ex, H, 'latest_public_key_id'), 'u64')
+            latest = ex.child(st, pk, fidx(ex, PK, 'latest'), KI)
+            hist = smodels.vec_items(ex, st, ex.child(st, pk, fidx(ex, PK, 'historical'), 'std::vec::Vec<%s>' % KI), KI)
+            want = [latest] + list(hist)
+            if not (isinstance(mp, Tree) and mp.meta and mp.meta[0] == 'map'):
+                D.failed = D.failed or ('inconclusive', 'key map not built by collect(): %r' % (mp,), None, st)
+                continue
+            ents = [mp.f[i] for i in range(mp.meta[1])]
+            if len(ents) != len(want):
+                D.failed = D.failed or ('violated', '%d keys registered for %d configured keys' % (len(ents), len(want)), None, st)
+                continue
+            D.require(st, lid.t == ex.child(st, latest, fidx(ex, KI, 'id'), 'u64').t, 'requests are decorated with the latest key id')
+            for k_, (e, w) in enumerate(zip(ents, want)):
+                wid = ex.child(st, w, fidx(ex, KI, 'id'), 'u64')
+                wkey = ex.child(st, w, fidx(ex, KI, 'key'), None)
+                D.require(st, ex.child(st, e, 0, 'u64').t == wid.t, 'entry %d is registered under its own id' % k_)
+                if not ex.veq(smodels.deref_all(ex, st, ex.child(st, e, 1, None)), wkey):
+                    D.failed = D.failed or ('violated', 'key id of configured key %d (0 = latest) is bound to another key than its own' % k_, None, st)
+        chk.absorb(ex)
+    f = D.done()
+    if f and f[0] == 'violated':
+        o.key = o.name
+
+
 def with_signature(chk):
     o = chk.ob('signature-check-structure', 'verify_response_with_signature verifies, under the key registered for the key id ARGUMENT (error if none), the signature over SHA-256(SHA-256(request body) || SHA-256(response body) || "<key id>:<nonce>") composed in exactly this order; make_transaction_hash feeds exactly these three parts')
     ex = c15.real_builder_executor(chk, dict(unroll=8))
@@ -408,6 +454,7 @@ def run(chk):
     parse_etag(chk, nbytes)
     verify_structure(chk)
     with_signature(chk)
+    key_map(chk)
     chk.bounds.update({'etag bytes (parse_etag)': nbytes})
     chk.assumptions += [
         'SHA-256, hex decoding, DER parsing and ECDSA verification (sha2, hex, ecdsa/p256 crates) are abstract events: the check decides which values flow into which primitive and how each outcome maps to accept / error class, not the primitives themselves; injectivity of the hash is not assumed',
